@@ -188,6 +188,16 @@ def independence_shard(kind, args, T, Bs, path="ctor"):
     def make(B):
         if path == "ctor" or B == 1:
             return make0(B)
+        if path == "rerun":
+            # the object has already run at another batch size; then every component is resized through its setter and the
+            # object is cleared - it must now behave like a freshly constructed one of the new size
+            obj = make0(B + 1)
+            step(obj, torch.tensor([row(2)] * (B + 1), dtype=dtype))
+            parts = list(obj.connections_.values()) + list(obj.neurons_.values()) if kind == "layer" else [obj]
+            for c in parts:
+                c.batchsz = B
+            obj.clear()
+            return obj
         obj = make0(1 if path == "grown" else B + 1)
         obj.batchsz = B
         return obj
@@ -288,6 +298,72 @@ def adaptation_shard(cname, T):
     return tally
 
 
+def homeostasis_batch_shard(param, how):
+    """LinearHomeostasis with a sum reduction - given to the constructor or as a per-cell register_cell override of a trainer whose
+    default is another reduction: for every pair of postsynaptic histories of length 2 the batched step's parts equal the sums of
+    the parts of the two batch-size-1 runs (a differential: the rule itself is C09's)."""
+    from inferno.learn import LinearHomeostasis
+    from inferno.extra import ExactNeuron
+    tally = Tally()
+    T = 2
+    hist = list(itertools.product((0, 1), repeat=T))
+
+    def build(B):
+        conn = LinearDense((2,), (1,), 1.0, synapse=DeltaCurrent.partialconstructor(1.0), bias=True, delay=2.0, batch_size=B,
+                           weight_init=lambda w: torch.full_like(w, 0.5), bias_init=lambda b: torch.zeros_like(b), delay_init=lambda d: torch.full_like(d, 1.0))
+        conn.updater = conn.defaultupdater()
+        layer = Serial(conn, ExactNeuron((1,), 1.0, rest_v=-60.0, thresh_v=-45.0, batch_size=B))
+        if how == "ctor":
+            tr = LinearHomeostasis(0.25, 0.5, param, batch_reduction=torch.sum)
+            tr.register_cell("cell", layer.cell)
+        else:
+            tr = LinearHomeostasis(0.25, 0.5, param, batch_reduction=torch.amax)
+            tr.register_cell("cell", layer.cell, batch_reduction=torch.sum)
+        return layer, tr
+
+    def parts(layer):
+        acc = getattr(layer.connection.updater, param)
+        return [None if x is None else x.detach().clone().to(torch.float64) for x in (acc.pos, acc.neg)]
+
+    def run(hs):
+        B = len(hs)
+        layer, tr = build(B)
+        out = []
+        for t in range(T):
+            delattr(layer.connection.updater, param)
+            layer(torch.zeros(B, 2, dtype=torch.bool), neuron_kwargs={"override": torch.tensor([[h[t]] for h in hs], dtype=torch.bool)})
+            tr()
+            out.append(parts(layer))
+        return out
+
+    for pair in itertools.product(hist, repeat=2):
+        tally.add("evaluations")
+        case = {"trainer": "homeostasis", "param": param, "sum_reduction_given_by": how, "histories": [list(h) for h in pair]}
+        try:
+            batched = run(list(pair))
+            singles = [run([h]) for h in pair]
+        except Exception as ex:
+            tally.violation(f"exception:homeostasis-batch:{param}:{how}:{type(ex).__name__}", case, repr(ex))
+            continue
+        for t in range(T):
+            for i, nm in enumerate(("pos", "neg")):
+                b = batched[t][i]
+                ss = [s_[t][i] for s_ in singles]
+                z = torch.zeros_like(next(x for x in [b] + ss if x is not None)) if any(x is not None for x in [b] + ss) else None
+                if z is None:
+                    continue
+                tot = sum((x if x is not None else z) for x in ss)
+                bb = b if b is not None else z
+                if not close(bb + z, tot + z):
+                    tally.violation(f"homeostasis:batched!=sum-of-samples:{param}:{how}:{nm}", {**case, "step": t},
+                                    f"step {t}: batched {nm} part {bb.reshape(-1).tolist()} but the per-sample steps sum to {tot.reshape(-1).tolist()}", tot.tolist(), bb.tolist())
+                    break
+        if pair[0] != pair[1]:
+            tally.mark("nontrivial", ("homeo-batch", param, how, pair))
+    tally.sample({"part": "homeostasis sum reduction", "param": param, "given_by": how})
+    return tally
+
+
 def run(rep):
     quick = rep.tier == "quick"
     T = 3 if quick else 4
@@ -311,6 +387,11 @@ def run(rep):
                     jobs.append((independence_shard, ("connection", (cname, skind, delayed), T, (2,), "grown" if delayed else "shrunk")))
     for lname in ("serial", "biclique", "recurrent"):
         jobs.append((independence_shard, ("layer", (lname,), T, Bs)))
+        jobs.append((independence_shard, ("layer", (lname,), T, (2,), "rerun")))
+    for cname in ("LIF", "ALIF", "AdEx"):
+        jobs.append((independence_shard, ("neuron", (cname, True), T, (2,), "rerun")))
+    for cname in ("dense", "conv"):
+        jobs.append((independence_shard, ("connection", (cname, "exp", True), T, (2,), "rerun")))
     for cname in ADAPT_THRESH + ADAPT_CURR:
         jobs.append((adaptation_shard, (cname, 2 if quick else 3)))
     # trainer clause: with a sum reduction the batched training step equals the sum of the per-sample steps - net update
@@ -320,6 +401,9 @@ def run(rep):
     for kind in ("stdp", "triplet", "mstdp", "mstdpet"):
         jobs.append((c08.reduction_shard, (kind, "dense", (1, 1), 1.0, "hebbian", "sum")))
     jobs.append((c09.kernel_parts_shard, (2 if quick else 3, 2.0)))
+    for param in ("weight", "bias", "delay"):
+        for how in ("ctor", "override"):
+            jobs.append((homeostasis_batch_shard, (param, how)))
     tally = run_shards(jobs, seed=rep.seed)
     rep.tally.merge(tally)
     rep.assumptions += [
